@@ -454,25 +454,6 @@ Proof.
 Qed.
 
 (** ** rendered tokens are scanned back *)
-Definition is_bracket_text (t : str) : bool := str_eqb t [ch_open] || str_eqb t [ch_close].
-(* two tokens may touch when one of them is a bracket or the second starts with a minus sign *)
-Definition may_touch (t t' : str) : bool :=
-  is_bracket_text t ||
-  match t' with c :: _ => (c =? ch_open) || (c =? ch_close) || (c =? ch_minus) | [] => false end.
-Fixpoint seps_ok (texts seps : list str) : bool :=
-  match texts with
-  | [] => true
-  | t :: ts =>
-      let sep := hd [] seps in
-      forallb is_space sep
-      && match sep, ts with [], t' :: _ => may_touch t t' | _, _ => true end
-      && seps_ok ts (tl seps)
-  end.
-
-(* \w and whitespace are disjoint (true of Unicode; for ASCII it is computed, for the rest it is a
-   hypothesis on the environment parameter) *)
-Definition space_not_word (uw : Z -> bool) : Prop := forall c, 128 <= c -> is_space c = true -> uw c = false.
-
 Lemma space_is_not_word uw c : space_not_word uw -> is_space c = true -> is_word uw c = false /\ c <> ch_dot.
 Proof.
   intros H Hs. split.
@@ -798,4 +779,169 @@ Proof.
   - rewrite P. f_equal. apply flatten_inj. rewrite F, H4. reflexivity.
   - discriminate.
   - rewrite H4, balanced_flatten in E. discriminate.
+Qed.
+
+(** ** rejection stated on the characters of the string *)
+Lemma forallb_impl {A} (f g : A -> bool) l : (forall x, f x = true -> g x = true) ->
+  forallb f l = true -> forallb g l = true.
+Proof. intros H. rewrite !forallb_forall. auto. Qed.
+
+Lemma atom_chars t : int_shape t \/ float_shape t \/ note_shape t -> forallb atom_char t = true.
+Proof.
+  assert (D : forall d, digits d -> forallb atom_char d = true).
+  { intros d [_ H]. eapply forallb_impl; [|exact H]. intros c Hc. unfold atom_char. rewrite Hc. reflexivity. }
+  assert (S : forall sg, sign_ok sg -> forallb atom_char sg = true) by (intros sg [-> | ->]; reflexivity).
+  intros [(sg & d & -> & Hs & Hd) | [(sg & d1 & d2 & -> & Hs & H1 & H2) | (c & d & Hc & Hd & E)]].
+  - rewrite forallb_app, S, D; auto.
+  - rewrite !forallb_app. cbn [forallb]. rewrite S, !D; auto.
+  - unfold atom_char. destruct E as [-> | ->]; cbn [forallb]; rewrite Hc, Hd;
+      rewrite ?orb_true_r; reflexivity.
+Qed.
+
+Lemma tok_shape_chars t : tok_shape t -> forallb token_char t = true.
+Proof.
+  intros [-> | [-> | H]]; [reflexivity|reflexivity|].
+  eapply forallb_impl; [|apply atom_chars; exact H]. intros c Hc. unfold token_char. rewrite Hc. reflexivity.
+Qed.
+
+Definition all_space (sp : str) : Prop := forallb is_space sp = true.
+
+Lemma render_chars toks : forall seps, Forall tok_shape toks -> Forall all_space seps ->
+  forall c, In c (render toks seps) -> token_char c = true \/ is_space c = true.
+Proof.
+  induction toks as [|t ts IH]; intros seps Ht Hs c Hin; [contradiction|].
+  inversion Ht; subst. simpl in Hin. apply in_app_or in Hin as [Hin|Hin].
+  - left. pose proof (tok_shape_chars t H1) as Hc. rewrite forallb_forall in Hc. auto.
+  - apply in_app_or in Hin as [Hin|Hin].
+    + right. destruct seps as [|sp seps]; [contradiction|]. inversion Hs; subst. simpl in Hin.
+      unfold all_space in H3. rewrite forallb_forall in H3. auto.
+    + apply (IH (tl seps)); auto. destruct seps; [constructor|inversion Hs; assumption].
+Qed.
+
+Lemma foreign_rejected uw s c : In c s -> token_char c = false -> is_space c = false -> parse uw s = Reject.
+Proof.
+  intros Hin Ht Hsp. destruct (tokens_of uw s) as [toks e] eqn:ET.
+  destruct (parse_spec uw s toks e ET) as [(-> & _ & _) | [_ R]]; [|exact R].
+  destruct (tokenize_spec uw _ _ _ ET) as (seps & -> & _ & Hs & Hsh & _).
+  destruct (render_chars toks seps Hsh Hs c Hin); congruence.
+Qed.
+
+Definition no_bracket (t : str) : Prop := forallb (fun c => negb ((c =? ch_open) || (c =? ch_close))) t = true.
+
+Lemma char_depth_skip t : forall x d, no_bracket t -> char_depth d (t ++ x) = char_depth d x.
+Proof.
+  induction t as [|c t IH]; intros x d H; [reflexivity|]. unfold no_bracket in H. simpl in H.
+  apply andb_true_iff in H as [Hc Ht]. apply negb_true_iff, orb_false_iff in Hc as [H1 H2].
+  simpl. rewrite H1, H2. apply IH. exact Ht.
+Qed.
+
+Lemma space_no_bracket sp : all_space sp -> no_bracket sp.
+Proof.
+  unfold all_space, no_bracket. apply forallb_impl. intros c Hc.
+  destruct ((c =? ch_open) || (c =? ch_close)) eqn:E; [|reflexivity].
+  rewrite printable_not_space in Hc; [discriminate|]. cc.
+Qed.
+
+Lemma atom_no_bracket t : int_shape t \/ float_shape t \/ note_shape t -> no_bracket t.
+Proof.
+  intros H. unfold no_bracket. eapply forallb_impl; [|apply atom_chars; exact H].
+  intros c Hc. unfold atom_char in Hc. apply negb_true_iff. cc.
+Qed.
+
+Lemma char_depth_render toks : forall seps d, Forall tok_shape toks -> Forall all_space seps ->
+  char_depth d (render toks seps) = depth_after d (map classify toks).
+Proof.
+  induction toks as [|t ts IH]; intros seps d Ht Hs; [reflexivity|].
+  inversion Ht; subst.
+  assert (Hsp : all_space (hd [] seps)) by (destruct seps; [reflexivity|inversion Hs; assumption]).
+  assert (Hs' : Forall all_space (tl seps)) by (destruct seps; [constructor|inversion Hs; assumption]).
+  cbn [render map]. destruct H1 as [-> | [-> | H]].
+  - change (classify [ch_open]) with TOpen. cbn [app char_depth depth_after].
+    replace (ch_open =? ch_open) with true by reflexivity.
+    rewrite (char_depth_skip _ _ _ (space_no_bracket _ Hsp)). apply IH; assumption.
+  - change (classify [ch_close]) with TClose. cbn [app char_depth depth_after].
+    replace (ch_close =? ch_open) with false by reflexivity. replace (ch_close =? ch_close) with true by reflexivity.
+    destruct (d - 1 <? 0); [reflexivity|].
+    rewrite (char_depth_skip _ _ _ (space_no_bracket _ Hsp)). apply IH; assumption.
+  - pose proof (atom_not_bracket t H) as NB. unfold is_bracket_text in NB. apply orb_false_iff in NB as [N1 N2].
+    unfold classify. rewrite N1, N2. cbn [depth_after].
+    rewrite (char_depth_skip _ _ _ (atom_no_bracket t H)), (char_depth_skip _ _ _ (space_no_bracket _ Hsp)).
+    apply IH; assumption.
+Qed.
+
+(* a completely scanned string: its bracket characters are its bracket tokens *)
+Lemma scanned_brackets uw s toks : tokens_of uw s = (toks, ScanComplete) ->
+  brackets_balanced s = balanced (map classify toks).
+Proof.
+  intros ET. destruct (tokenize_spec uw _ _ _ ET) as (seps & -> & _ & Hs & Hsh & _).
+  unfold brackets_balanced, balanced. rewrite (char_depth_render toks seps 0 Hsh Hs). reflexivity.
+Qed.
+
+Lemma unbalanced_rejected uw s : brackets_balanced s = false -> parse uw s = Reject.
+Proof.
+  intros Hb. destruct (tokens_of uw s) as [toks e] eqn:ET.
+  destruct (parse_spec uw s toks e ET) as [(-> & B & _) | [_ R]]; [|exact R].
+  rewrite (scanned_brackets uw s toks ET) in Hb. congruence.
+Qed.
+
+(** ** editing one bracket of a balanced string unbalances it *)
+Definition bracket_net (s : str) : Z :=
+  fold_right (fun c a => (if c =? ch_open then 1 else if c =? ch_close then -1 else 0) + a) 0 s.
+
+Lemma char_depth_net s : forall d d', char_depth d s = Some d' -> d' = d + bracket_net s.
+Proof.
+  induction s as [|c s IH]; intros d d' E; simpl in *.
+  - injection E as <-. lia.
+  - destruct (c =? ch_open); [apply IH in E; lia|].
+    destruct (c =? ch_close); [|apply IH in E; lia].
+    destruct (d - 1 <? 0); [discriminate|]. apply IH in E. lia.
+Qed.
+
+Lemma bracket_net_app a b : bracket_net (a ++ b) = bracket_net a + bracket_net b.
+Proof. induction a as [|c a IH]; simpl; [reflexivity|]. unfold bracket_net in *. rewrite IH. lia. Qed.
+
+Lemma balanced_net s : brackets_balanced s = true -> bracket_net s = 0.
+Proof.
+  unfold brackets_balanced. destruct (char_depth 0 s) as [d|] eqn:E; [|discriminate].
+  apply char_depth_net in E. destruct d; try discriminate. lia.
+Qed.
+
+Lemma bracket_net_one c : c = ch_open \/ c = ch_close -> bracket_net [c] = 1 \/ bracket_net [c] = -1.
+Proof. intros [-> | ->]; [left|right]; reflexivity. Qed.
+
+Lemma edit_insert a b c : brackets_balanced (a ++ b) = true -> c = ch_open \/ c = ch_close ->
+  brackets_balanced (a ++ c :: b) = false.
+Proof.
+  intros H Hc. destruct (brackets_balanced (a ++ c :: b)) eqn:E; [|reflexivity].
+  apply balanced_net in H, E. change (c :: b) with ([c] ++ b) in E. rewrite !bracket_net_app in *.
+  destruct (bracket_net_one c Hc); lia.
+Qed.
+
+Lemma edit_delete a b c : brackets_balanced (a ++ c :: b) = true -> c = ch_open \/ c = ch_close ->
+  brackets_balanced (a ++ b) = false.
+Proof.
+  intros H Hc. destruct (brackets_balanced (a ++ b)) eqn:E; [|reflexivity].
+  apply balanced_net in H, E. change (c :: b) with ([c] ++ b) in H. rewrite !bracket_net_app in *.
+  destruct (bracket_net_one c Hc); lia.
+Qed.
+
+Lemma edit_flip a b c c' : brackets_balanced (a ++ c :: b) = true ->
+  (c = ch_open /\ c' = ch_close) \/ (c = ch_close /\ c' = ch_open) ->
+  brackets_balanced (a ++ c' :: b) = false.
+Proof.
+  intros H Hc. destruct (brackets_balanced (a ++ c' :: b)) eqn:E; [|reflexivity].
+  apply balanced_net in H, E. change (c :: b) with ([c] ++ b) in H. change (c' :: b) with ([c'] ++ b) in E.
+  rewrite !bracket_net_app in *.
+  assert (O : bracket_net [ch_open] = 1) by reflexivity. assert (C : bracket_net [ch_close] = -1) by reflexivity.
+  destruct Hc as [[-> ->] | [-> ->]]; lia.
+Qed.
+
+(** ** non-empty whitespace everywhere is always a legal choice of separators *)
+Lemma seps_ok_nonempty texts : forall seps, length seps = length texts ->
+  Forall (fun sp => sp <> [] /\ forallb is_space sp = true) seps -> seps_ok texts seps = true.
+Proof.
+  induction texts as [|t ts IH]; intros seps Hl Hs; [reflexivity|].
+  destruct seps as [|sp seps]; [discriminate|]. inversion Hs as [|? ? [Hne Hsp] Hs']; subst.
+  cbn [seps_ok hd tl]. rewrite Hsp, IH; [|simpl in Hl; lia|exact Hs'].
+  destruct sp; [congruence|reflexivity].
 Qed.
